@@ -178,6 +178,27 @@ def xfer_packet_id(sel: int, pod: bool) -> bool:
     return ser.serialize(blk, val) == raw
 
 
+@harness(pre=[f"0 <= sel < {len(XFER_VALUES)}", f"0 <= sel2 < {len(XFER_VALUES)}", "0 <= reads <= 2"], post="_", timeout=300, covers=COVERS,
+         note="block-level cache isolation: a decoded (pretty) value handed out by Block.deserialize_var is the caller's own - "
+              "editing it in place (packet number replaced, EOF bit flipped) WITHOUT writing it back, on the first read or on a "
+              "later (cached) read, changes neither the variable's wire value nor what the next pretty read returns: that still "
+              "re-encodes to the unchanged wire value (SendXferPacket.XferID.Packet, a mutable dataclass; word and replacement "
+              "solver-selected from the boundary catalogue; 1..3 reads each followed by an edit)")
+def block_cache_isolation(sel: int, sel2: int, reads: int) -> bool:
+    ser = REG[("SendXferPacket", "XferID", "Packet")]
+    raw = XFER_VALUES[small(sel, 0, len(XFER_VALUES) - 1)]
+    other = XFER_VALUES[small(sel2, 0, len(XFER_VALUES) - 1)] & 0x7FFFFFFF
+    blk = Block("XferID", ID=1, Packet=raw)
+    blk.message_name = "SendXferPacket"
+    for _ in range(small(reads, 0, 2) + 1):
+        val = blk.deserialize_var("Packet")
+        if ser.serialize(blk, val) != raw:
+            return False
+        val.PacketID = other
+        val.IsEOF = not val.IsEOF
+    return blk["Packet"] == raw and ser.serialize(blk, blk.deserialize_var("Packet")) == raw
+
+
 _REAL_DATETIME = tmpls.datetime
 DATE_KEYS = [("ObjectProperties", "ObjectData", "CreationDate"), ("ParcelProperties", "ParcelData", "ClaimDate"),
              ("MeanCollisionAlert", "MeanCollision", "Time")]
@@ -718,6 +739,45 @@ def block_cache_invalidation(a: int, bi: int) -> bool:
     second = blk.deserialize_var("State")
     ser = REG[("ObjectUpdate", "ObjectData", "State")]
     return ser.serialize(blk, second) == b and (a == b or ser.serialize(blk, first) == a)
+
+
+def _face_wire_model(faces):
+    """independent model of the texture-entry face bitfield: big-endian base-128 groups, 0x80 = more follows, no leading
+    zero group"""
+    packed = sum(1 << f for f in faces)
+    groups = []
+    while packed:
+        groups.append(packed % 128)
+        packed //= 128
+    groups.reverse()
+    return bytes((g + 128) if i < len(groups) - 1 else g for i, g in enumerate(groups))
+
+
+@harness(pre=["0 <= f <= 69", "0 <= g <= 69", "0 <= h <= 2"], post="_", timeout=400,
+         note="texture-entry face bitfield (TEFaceBitfield, the exception-list key of every TextureEntry field): for ANY face "
+              "set {f}, {f, g} or {f, g, g+h+1} with faces 0..72 - i.e. beyond the 45 faces the viewer uses, which the wire format "
+              "allows (1..11 byte bitfields) - the wire form equals an independent base-128 model, decodes back to exactly that "
+              "face tuple, and the decoded tuple re-encodes to the same bytes, reading exactly the bitfield's bytes",
+         covers=("hippolyzer.lib.base.templates:TEFaceBitfield.deserialize", "hippolyzer.lib.base.templates:TEFaceBitfield.serialize"))
+def te_face_bitfield(f: int, g: int, h: int) -> bool:
+    f, g, h = small(f, 0, 69), small(g, 0, 69), small(h, 0, 2)
+    faces = tuple(sorted({f, g} | ({g + h + 1} if h else set())))
+    w = se.BufferWriter("<")
+    tmpls.TEFaceBitfield.serialize(faces, w)
+    data = w.copy_buffer()
+    if data != _face_wire_model(faces):
+        return False
+    r = se.BufferReader("<", data + b"\x55")
+    back = tmpls.TEFaceBitfield.deserialize(r)
+    if back != faces or len(r) != 1:
+        return False
+    w2 = se.BufferWriter("<")
+    tmpls.TEFaceBitfield.serialize(back, w2)
+    return w2.copy_buffer() == data
+
+
+from vlib.harness import shard as _shard  # noqa: E402
+_shard(te_face_bitfield, "h", range(3), ["pairs", "triples_adjacent", "triples_gap"], globals())
 
 
 def obligations(tier, seed):
